@@ -64,5 +64,4 @@ KeepsRole  == Written => (out[1].g \/ ~src.sp.q \/ Lower(src.sp.name) \notin Rea
 KeepsExec  == Written => (out[1].g \/ ~src.sp.q \/ Lower(src.sp.name) \notin SqliteReserved)
 KeepsName  == Written => (out[1].g \/ src.sp.name \in LexBare)                         \* a bare spelling must lex as one word
 KeepsDenotation == Written => Denote(src.d, out[1].g, src.sp.name) = Denote(src.d, src.sp.q, src.sp.name)
-(* sanity of the space: something is accepted, something is rejected *)
 =============================================================================
